@@ -151,7 +151,9 @@ class PragmaExtension(ParserExtension):
             prefix_length = len(PragmaToken.pragma_alternate_prefix)
             actual_line_number = -next_line_number
 
-        line_after_prefix = pragma_lines[next_line_number][prefix_length:]
+        line_after_prefix = pragma_lines[next_line_number][prefix_length:].rstrip(
+            Constants.ascii_whitespace
+        )
         after_whitespace_index, _ = ParserHelper.extract_spaces_verified(
             line_after_prefix, 0
         )
